@@ -2,7 +2,9 @@ package c13
 
 import (
 	"fmt"
+	"github.com/oneconcern/datamon/pkg/model"
 	"os"
+	"strings"
 	"testing"
 	"time"
 
@@ -247,4 +249,84 @@ func TestRegressMetadataReadFailures(t *testing.T) {
 		}
 	}
 	stats.Count("pinned_metadata_read_failures", n)
+}
+
+// An upload made after the index re-uses an orphaned blob while the Touch that refreshes the blob's update time
+// fails once: if the upload reports success its bundle must survive delete-unused
+func TestRegressTouchFailureOnReuse(t *testing.T) {
+	for nth := 1; nth <= 4; nth++ {
+		pinned(t, "", "", caseT{
+			Shape: oneRepo, Chunk: 4, Parallel: 2,
+			Pre:            []purgex.Op{up(0, file("a", 0, 0, 1)), up(0, file("c", 1)), {Kind: purgex.OpDelBundle, Repo: 0, Pick: 0}},
+			Post:           []purgex.Op{up(0, file("z", 0, 0, 1)), up(0, file("y", 0, 0, 1, 2))},
+			PostTouchFault: nth,
+		})
+	}
+}
+
+// docs/purge.md: indexes of several contexts may be merged by hand - build the index of another context, copy its
+// chunk files next to the index of this context and build this one with --chunk-index <last copied chunk>.
+// delete-unused over the merged index must keep the blobs of both contexts.
+func TestRegressManualChunkMerge(t *testing.T) {
+	for _, chunk := range []uint64{1, 2, 5} {
+		pw, err := purgex.NewWorld(purgex.Shape{Repos: []int{1, 1}, Leaves: []uint32{1024}})
+		if err != nil {
+			t.Fatal(err)
+		}
+		func() {
+			defer pw.Close()
+			fail := func(format string, a ...interface{}) {
+				t.Helper()
+				stats.Violation(fmt.Sprintf("manual chunk merge: "+format, a...))
+				t.Fatalf("manual chunk merge (chunk size %d): "+format, append([]interface{}{chunk}, a...)...)
+			}
+			ops := []purgex.Op{
+				up(0, file("a", 0, 0, 1), file("b", 300, 2)),
+				{Kind: purgex.OpUpload, Ctx: 1, Repo: 0, Leaf: 1024, Files: []purgex.File{file("x", 7, 3, 4), file("y", 9)}},
+				up(0, file("gone", 5, 5, 5)), {Kind: purgex.OpDelBundle, Repo: 0, Pick: 1},
+			}
+			for _, o := range ops {
+				if err := pw.Apply(o, "pre"); err != nil {
+					fail("harness: %v", err)
+				}
+			}
+			time.Sleep(2 * time.Millisecond)
+			// 1. the index of context 1, on its own
+			if _, oc := pw.BuildIndex(purgex.Run{Dir: pw.Sc.Dir("kv"), Chunk: chunk, Parallel: 2, Main: 1, Alone: true}); !oc.OK() {
+				fail("index of the other context: %s", oc)
+			}
+			// 2. copied by hand next to context 0's (future) index
+			last := 0
+			for _, k := range pw.Envs[1].Meta.RawKeys() {
+				if !strings.HasPrefix(k, model.ReverseIndexPrefix()) {
+					continue
+				}
+				data, _ := pw.Envs[1].Meta.RawGet(k)
+				pw.Envs[0].Meta.RawPut(k, data)
+				idx, err := model.ReverseIndexChunk(k)
+				if err != nil {
+					fail("harness: %v", err)
+				}
+				if int(idx) > last {
+					last = int(idx)
+				}
+			}
+			if last == 0 {
+				fail("harness: the other context's index has no chunk")
+			}
+			// 3. the index of context 0 alone, numbered after the copied chunks
+			if _, oc := pw.BuildIndex(purgex.Run{Dir: pw.Sc.Dir("kv"), Chunk: chunk, Parallel: 2, Main: 0, Alone: true, ChunkStart: last}); !oc.OK() {
+				fail("index of this context with --chunk-index %d: %s", last, oc)
+			}
+			// 4. delete-unused, then everything committed must still download
+			pb, oc := pw.DeleteUnused(purgex.Run{Dir: pw.Sc.Dir("kv"), Parallel: 2, Main: 0, Alone: true})
+			if !oc.OK() {
+				fail("delete-unused: %s", oc)
+			}
+			if err := pw.Verify(); err != nil {
+				fail("after delete-unused over the merged index (%d chunks copied, deleted %d blobs): %v", last, pb.DeletedEntries, err)
+			}
+			stats.Case(fmt.Sprintf("pinned manual chunk merge chunk=%d copied=%d", chunk, last), true, func() interface{} { return ops })
+		}()
+	}
 }
